@@ -355,4 +355,4 @@ HPREDS = {"h_unsigned_ge_2p63": _h_unsigned_ge_2p63, "h_negative_contents": _h_n
 
 
 # ---- predicates on compiler scenarios (C09-C13): f(scenario, event) ----------------------------
-MPREDS = {}
+MPREDS = {"opts_fno_constraints": lambda run, evs: "-fno-constraints" in run.get("opts", [])}
